@@ -523,3 +523,48 @@ Definition astep (alias : bool) (t : apc) (s : ash) : apc * ash :=
   end.
 Definition ainit (l0 : list nat) : ash := {| a_arr := []; a_old := []; a_live := l0; a_disposed := [] |}.
 Definition a_is_reg (t : apc) : bool := match t with AReg _ | ARegDone _ => true | _ => false end.
+
+(* ------------------------------------------------------------------------------------------------ *)
+(* K. mapping handler statistics: reportStats (periodic tick, final report of the clean-up handler)  *)
+(* ------------------------------------------------------------------------------------------------ *)
+(* client/mapping/base_utils.go reportStats, one of the two symmetric counters.  `swap = true` (the repository):
+   v := counter.Swap(0); if v > 0 { upload v; on failure counter.Add(v) }.  `swap = false`: v := counter.Load(); upload v;
+   on success counter.Add(-v).  KAdd threads are the tunnels' OnClosed callbacks adding their totals. *)
+Record ksh := { k_cnt : Z; k_up : Z; k_added : Z }.
+Inductive kpc := KTake (fail : bool) | KUpload (v : Z) (fail : bool) | KSub (v : Z) | KRDone | KAdd (todo : list Z).
+Definition kstep (swap : bool) (t : kpc) (s : ksh) : kpc * ksh :=
+  match t with
+  | KTake f => (if (0 <? k_cnt s)%Z then KUpload (k_cnt s) f else KRDone,
+                if swap then {| k_cnt := 0; k_up := k_up s; k_added := k_added s |} else s)
+  | KUpload v f =>
+      if f then (KRDone, if swap then {| k_cnt := (k_cnt s + v)%Z; k_up := k_up s; k_added := k_added s |} else s)
+      else (if swap then KRDone else KSub v, {| k_cnt := k_cnt s; k_up := (k_up s + v)%Z; k_added := k_added s |})
+  | KSub v => (KRDone, {| k_cnt := (k_cnt s - v)%Z; k_up := k_up s; k_added := k_added s |})
+  | KAdd (d :: r) => (KAdd r, {| k_cnt := (k_cnt s + d)%Z; k_up := k_up s; k_added := (k_added s + d)%Z |})
+  | KAdd [] | KRDone => (t, s)
+  end.
+Definition kinit : ksh := {| k_cnt := 0; k_up := 0; k_added := 0 |}.
+Definition k_initial (t : kpc) : bool :=
+  match t with KTake _ => true | KAdd todo => forallb (fun d => (0 <=? d)%Z) todo | _ => false end.
+Definition k_finished (t : kpc) : bool := match t with KRDone | KAdd [] => true | _ => false end.
+Definition k_inflight (t : kpc) : list Z := match t with KUpload v _ => [v] | _ => [] end.
+
+(* ------------------------------------------------------------------------------------------------ *)
+(* L. Bridge.cleanup: the final traffic report against a statistics backend that does not answer     *)
+(* ------------------------------------------------------------------------------------------------ *)
+(* bridge.go cleanup (runs inside Close, under the Dispose latch): `guarded = true` (the repository): the report runs in a
+   helper goroutine and the clean-up handler waits for it OR for a 5 s timer; `guarded = false`: a synchronous call.
+   Threads of the system: [closer; report helper; timer; backend] — the backend thread may never be scheduled. *)
+Record lsh := { l_backend : bool; l_reported : bool; l_timer : bool }.
+Inductive lpc := LSpawn | LWait | LRest | LDone | LReport | LReported | LTimer | LTimerFired | LBackend | LBackendUp.
+Definition lstep (guarded : bool) (t : lpc) (s : lsh) : lpc * lsh :=
+  match t with
+  | LSpawn => (LWait, s)
+  | LWait => if l_reported s || (guarded && l_timer s) then (LRest, s) else (t, s)
+  | LRest => (LDone, s)                                    (* UnregisterMeter, ReleaseCrossNodeConnection; Close returns *)
+  | LReport => if l_backend s then (LReported, {| l_backend := l_backend s; l_reported := true; l_timer := l_timer s |}) else (t, s)
+  | LTimer => (LTimerFired, {| l_backend := l_backend s; l_reported := l_reported s; l_timer := true |})
+  | LBackend => (LBackendUp, {| l_backend := true; l_reported := l_reported s; l_timer := l_timer s |})
+  | LDone | LReported | LTimerFired | LBackendUp => (t, s)
+  end.
+Definition linit : lsh := {| l_backend := false; l_reported := false; l_timer := false |}.
